@@ -65,7 +65,10 @@ def run_history(ops, entry="extract"):
         else:
             with warnings.catch_warnings(record=True) as w:
                 warnings.simplefilter("always")
-                ENTRY[entry]()
+                try:
+                    ENTRY[entry]()
+                except BaseException as e:
+                    return ("extraction-raised" + ("" if entry == "extract" else ":" + entry), f"after {ops[:step]} {entry} raised {e!r}")
             same_card = len(sys.modules) == prev_len and set(sys.modules) != prev_set
             prev_len = len(sys.modules); prev_set = set(sys.modules)
             for n in MODS:
@@ -111,11 +114,15 @@ fresh_world()
 sys.modules["zz_r"] = MODS["zz_r"]; sys.modules["zz_m"] = MODS["zz_m"]
 with warnings.catch_warnings(record=True) as w:
     warnings.simplefilter("always")
-    st = stackscope.extract(G)
+    try:
+        st = stackscope.extract(G); raised = None
+    except BaseException as e:
+        st = None; raised = e
 leg.case("raising-glue", True)
 rw = [x for x in w if issubclass(x.category, RuntimeWarning) and "zz_r" in str(x.message)]
-if len(rw) != 1 or ("zz_m", "module") not in LOG or st.error is not None:
-    leg.violation("raising-glue", f"warnings={len(rw)} log={LOG} error={st.error!r}")
+if raised is not None or len(rw) != 1 or ("zz_m", "module") not in LOG or st.error is not None:
+    leg.violation("raising-glue", f"a glue function that raises must cost one warning and nothing else: raised={raised!r} warnings={len(rw)} log={LOG} "
+                                  f"error={getattr(st, 'error', None)!r}")
 # two threads: B starts extracting while A is inside a (slow) glue function
 fresh_world()
 started, done = threading.Event(), []
